@@ -150,6 +150,21 @@ def extract(repo):
             raise ValueError
     except Exception:
         miss.append("primaries")
+    # ---- the character class names the glob translator and the -regex validator know
+    try:
+        g = rd("src/find/matchers/glob.rs")
+        g = g[g.index("fn extract_bracket_expr"):]          # (the body holds an unbalanced "{" inside a string: not func_body)
+        g = g[:g.index("\nfn ", 1)]
+        i = g.index("if delim == ':'")
+        arm = g[i:g.index("_ => return None", i)]
+        T["glob_classes"] = sorted(set(re.findall(r'"([a-z]+)"', arm)))
+        r = func_body(rd("src/find/matchers/regex.rs"), "fn check_classes")
+        m = re.search(r"matches!\(\s*name,(.*?)\)\s*\{", r, re.S)
+        T["regex_classes"] = sorted(set(re.findall(r'"([a-z]+)"', m.group(1))))
+        if len(T["glob_classes"]) < 5 or len(T["regex_classes"]) < 5:
+            raise ValueError
+    except Exception:
+        miss.append("class_names")
     return T, miss
 
 
@@ -176,6 +191,9 @@ def render(T):
     out.append("(* tokens handled structurally by the parser: operators, parentheses, -exec/-execdir, -help/-version *)")
     out.append("Definition special_names : list (list nat) := [" + "; ".join(coq_str(n) for n in T["specials"]) + "].")
     out.append("Definition exec_is_action : bool := %s." % ("true" if T["exec_action"] else "false"))
+    out.append("(* the names accepted between [: and :] by extract_bracket_expr (glob.rs) and by check_classes (regex.rs) *)")
+    out.append("Definition glob_class_names : list (list nat) := [" + "; ".join(coq_str(n) for n in T["glob_classes"]) + "].")
+    out.append("Definition regex_class_names : list (list nat) := [" + "; ".join(coq_str(n) for n in T["regex_classes"]) + "].")
     return "\n".join(out) + "\n"
 
 
